@@ -25,7 +25,7 @@ def cz(n):
 
 def cstr(s):
     for ch in s:
-        if ord(ch) < 32 or ord(ch) > 126:
+        if (ord(ch) < 32 and ch not in "\n\t") or ord(ch) > 126:
             raise ValueError("non printable in %r" % s)
     return '"' + s.replace('"', '""') + '"'
 
@@ -206,6 +206,17 @@ def run(c):
                         c.fail("oracle", "comparison differs from the Go operator on the %s value" % KINDS[kind],
                                input=inp(r, {"sites": [dict(site_desc(i, j), value=repr(value_of(sites[(i, j)], kind, var))) for i in bad]}),
                                expected=sorted(e), observed=r.get("panic") or r.get("load_err") or sorted(acc(r)))
+                    rw = m["w" + tok]
+                    ew = set()
+                    for i in range(N):
+                        va, vb = value_of(sites[(i, rw["j"])], kind, "x"), value_of(sites[(i, rw["j"])], kind, "y")
+                        if va is not None and vb is not None and GO_OPS[tok](va, vb):
+                            ew.add(i)
+                    if not clean(rw) or acc(rw) != ew:
+                        bad = sorted(acc(rw) ^ ew)[:3] if clean(rw) else []
+                        c.fail("oracle", "comparison of two captures differs from the Go operator on their %s values" % KINDS[kind],
+                               input=inp(rw, {"sites": [site_desc(i, rw["j"]) for i in bad]}),
+                               expected=sorted(ew), observed=rw.get("panic") or rw.get("load_err") or sorted(acc(rw)))
                     rc_ = m["c" + tok]
                     if tok in ("EQL", "NEQ"):
                         if not clean(rc_) or not clean(r) or acc(rc_) != acc(r):
